@@ -15,7 +15,7 @@ StrU == {B(""), x, B("abc"), N(10), N(-1), MaxI, MinI, B("0.5"), B("ab c")}
 ValA == {VStr(s, 0) : s \in StrU} \cup {VStr(x, Fut), VStr(N(10), Fut), VList(<<x>>, 0), VHash((x :> x), 0)}
 ValB == {VStr(x, 0), VStr(B("abd"), 0), VStr(N(3), Fut), VList(<<x>>, 0)}
 Dbs0 == UNION {{(ka :> va) @@ (kb :> vb) : va \in ValA, vb \in ValB}, {(ka :> va) : va \in ValA}, {(kb :> vb) : vb \in ValB}, {EmptyDb}}
-StrStates == {[InitServer({1}) EXCEPT !.dbs[0] = d] : d \in Dbs0}
+StrStates == {WithDb0(InitServer({1}), d) : d \in Dbs0}
 
 C(name, args) == <<B(name)>> \o args
 \* INCRBYFLOAT on +-2^63 is numeric accuracy (float64 vs long double), not claimed
